@@ -2,6 +2,7 @@ package props
 
 import (
 	"fmt"
+	"math/big"
 	"os"
 	"testing"
 
@@ -76,3 +77,5 @@ func libDecode(w []byte) (model.Message, *message.IKEMessage, error) {
 	}
 	return got, dm, nil
 }
+
+var bigTwo = big.NewInt(2)
